@@ -321,7 +321,7 @@ impl LruManager {
                 break;
             }
             evicted += 1;
-            freed += avg_entry_size;
+            freed = freed.saturating_add(avg_entry_size);
         }
 
         if evicted > 0 {
@@ -417,14 +417,14 @@ impl LruManager {
             stats.loaded_entries = self.len();
         }
 
-        // Evict to target
+        // Evict to target: keep as many entries as fit under the limit
+        // (`len * avg > limit` without computing the product, which can
+        // exceed 64 bits)
         if size_limit > 0 && avg_entry_size > 0 {
-            let current_size = self.len() as u64 * avg_entry_size;
-            if current_size > size_limit {
-                let target = current_size - size_limit;
-                let (evicted, freed) = self.evict_to_target(target, avg_entry_size);
-                stats.entries_evicted = evicted;
-                stats.bytes_freed = freed;
+            let keep = usize::try_from(size_limit / avg_entry_size).unwrap_or(usize::MAX);
+            while self.len() > keep && self.evict_tail().is_some() {
+                stats.entries_evicted += 1;
+                stats.bytes_freed = stats.bytes_freed.saturating_add(avg_entry_size);
             }
         }
 
